@@ -954,7 +954,7 @@ func (g *c13Gen) probes(extra []string) []string {
 	var out []string
 	add := func(s string) { out = append(out, s) }
 	for _, u := range base {
-		switch g.r.intn(6) {
+		switch g.r.intn(8) {
 		case 0:
 			add(u)
 		case 1:
@@ -980,11 +980,20 @@ func (g *c13Gen) probes(extra []string) []string {
 				}
 				add(p.String())
 			}
-		default:
+		case 5:
 			add(u + "z")
+		default:
+			// continue the last path segment of the configured URL (written with or without
+			// trailing slash): a sibling path, which belongs to another backend or to none
+			stem := strings.TrimSuffix(u, "/")
+			if p, err := url.Parse(stem); err != nil || p.Path == "" {
+				add(stem + "x") // no path: the host would continue
+				break
+			}
+			add(stem + pick(g.r, []string{"-test/ocs/v2.php", "2", "2/", "x/y", "-test", "%2F", ".", "_/"}))
 		}
 	}
-	for len(out) > 10 {
+	for len(out) > 12 {
 		i := g.r.intn(len(out))
 		out = append(out[:i], out[i+1:]...)
 	}
@@ -1117,33 +1126,6 @@ func c13GenEtcd(seed int64, id int, stream string) *c13Case {
 			}
 		}
 	}
-	// Open finding C13/etcd/url-without-trailing-slash: a value whose URL does not end in "/"
-	// also accepts URLs that continue its last path segment.  The random streams stay outside
-	// that region (the directed witness 900103 is inside): a probe that continues the last
-	// segment of a slash-less URL written anywhere in the case is dropped.
-	var slashless []string
-	for i := range c.Ops {
-		if o := &c.Ops[i]; o.K == "put" {
-			data, _ := o.payload()
-			var info BackendInformationEtcd
-			if json.Unmarshal(data, &info) == nil && info.Url != "" {
-				if n := c13Norm(info.Url); n != "" && !strings.HasSuffix(n, "/") {
-					slashless = append(slashless, n)
-				}
-			}
-		}
-	}
-	if len(slashless) > 0 {
-		ops := c.Ops[:0:0]
-		for _, o := range c.Ops {
-			if o.K == "probe" && c13InFindingRegion(slashless, o.U) {
-				c.Edits = append(c.Edits, "probe-dropped-finding-region")
-				continue
-			}
-			ops = append(ops, o)
-		}
-		c.Ops = ops
-	}
 	return c
 }
 
@@ -1159,18 +1141,36 @@ func c13Norm(s string) string {
 	return u.String()
 }
 
-func c13InFindingRegion(slashless []string, probe string) bool {
-	q := c13Norm(probe)
-	if q == "" {
-		return false
+// c13OracleRegular checks the assumption the etcd theorem of the second clause makes about
+// net/url (coq/proofs/BackendCfg_owner.v, oracle_regular) on a URL text written to etcd:
+// String() of a URL whose standard port is dropped is not empty, and a text that does not
+// end in "/" parses with "/" appended, with the same decision about the port and, where
+// it is dropped, the same String() up to that slash.  "" = holds (or the text does not parse).
+func c13OracleRegular(s string) string {
+	u, err := url.Parse(s)
+	if err != nil {
+		return ""
 	}
-	q = c13AddSlash(q)
-	for _, c := range slashless {
-		if strings.HasPrefix(q, c) && !strings.HasPrefix(q, c+"/") {
-			return true
-		}
+	normalised := func(u *url.URL) bool {
+		return strings.Contains(u.Host, ":") && ((u.Scheme == "https" && u.Port() == "443") || (u.Scheme == "http" && u.Port() == "80"))
 	}
-	return false
+	if normalised(u) && c13Norm(s) == "" {
+		return fmt.Sprintf("String() of %q with the standard port dropped is empty", s)
+	}
+	if strings.HasSuffix(s, "/") {
+		return ""
+	}
+	u2, err := url.Parse(s + "/")
+	if err != nil {
+		return fmt.Sprintf("%q parses, %q does not: %v", s, s+"/", err)
+	}
+	if normalised(u) != normalised(u2) {
+		return fmt.Sprintf("standard port of %q and %q judged differently", s, s+"/")
+	}
+	if normalised(u) && c13AddSlash(c13Norm(s)) != c13AddSlash(c13Norm(s+"/")) {
+		return fmt.Sprintf("String() of %q and %q differ by more than the slash: %q, %q", s, s+"/", c13Norm(s), c13Norm(s+"/"))
+	}
+	return ""
 }
 
 // ---- directed cases: the histories of the confirmed defects and of the open finding -------
@@ -1242,12 +1242,25 @@ func c13Directed() []*c13Case {
 		putSeg(1, "/nextcloud/"), putSeg(2, "/nextcloud-test/"), putSeg(3, "/nextcloud2/")}, segProbes...),
 		append([]c13Op{{K: "del", Key: 1}, putSeg(4, "/nextcloud/")}, segProbes...)...),
 		append([]c13Op{{K: "del", Key: 2}}, segProbes...)...)})
-	// OPEN FINDING: an etcd value whose URL does not end in "/" (the form of the example in
-	// server.conf.in) also accepts the URLs of a sibling whose path continues the last segment
-	cs = append(cs, &c13Case{Id: 900103, Kind: 1, Mode: 1, Stream: "directed", Finding: "C13/etcd/url-without-trailing-slash", Ops: append([]c13Op{
+	// the same three siblings in etcd, written WITHOUT trailing slash (the form of the example in
+	// server.conf.in), then with a written-out standard port, then slash-terminated
+	cs = append(cs, &c13Case{Id: 900011, Kind: 1, Mode: 1, Stream: "directed", Ops: append(append(append([]c13Op{
+		putSeg(1, "/nextcloud"), putSeg(2, "/nextcloud-test"), putSeg(3, "/nextcloud2")}, segProbes...),
+		append([]c13Op{put(1, "https://cloud.example:443/nextcloud", 1), {K: "del", Key: 3}, put(5, "https://cloud.example:443/nextcloud2", 5)}, segProbes...)...),
+		append([]c13Op{putSeg(2, "/nextcloud-test/"), {K: "del", Key: 1}}, segProbes...)...)})
+	// the shorter path under the LATER key: the lookup walks the longer one first
+	cs = append(cs, &c13Case{Id: 900012, Kind: 1, Mode: 1, Stream: "directed", Ops: append([]c13Op{
+		putSeg(1, "/nextcloud-test"), putSeg(2, "/nextcloud"), putSeg(3, "/nextclou")}, segProbes...)})
+	// Witnesses of the former finding C13/etcd/url-without-trailing-slash (repaired by fixes/C13/07;
+	// the histories of C13_lookup_unrepaired_boundary_refuted / _sibling_secret_refuted and of
+	// C13_etcd_owner_nonvacuous): an etcd value whose URL does not end in "/" accepts its own
+	// URLs and refuses those of a sibling whose path continues the last segment ...
+	cs = append(cs, &c13Case{Id: 900103, Kind: 1, Mode: 1, Stream: "directed", Ops: append([]c13Op{
 		putSeg(1, "/nextcloud")},
-		probe("https://cloud.example/nextcloud/ocs/v2.php", "https://cloud.example/nextcloud-test/ocs/v2.php/apps/spreed/api/v1/signaling/backend")...)})
-	cs = append(cs, &c13Case{Id: 900104, Kind: 1, Mode: 1, Stream: "directed", Finding: "C13/etcd/url-without-trailing-slash", Ops: append([]c13Op{
+		probe("https://cloud.example/nextcloud/ocs/v2.php", "https://cloud.example/nextcloud-test/ocs/v2.php",
+			"https://cloud.example/nextcloud-test/ocs/v2.php/apps/spreed/api/v1/signaling/backend")...)})
+	// ... and with the sibling configured under a later key each URL is answered with its own secret
+	cs = append(cs, &c13Case{Id: 900104, Kind: 1, Mode: 1, Stream: "directed", Ops: append([]c13Op{
 		putSeg(1, "/nextcloud"), putSeg(2, "/nextcloud-test")},
 		probe("https://cloud.example/nextcloud-test/ocs/v2.php", "https://cloud.example/nextcloud/ocs/v2.php")...)})
 	// OPEN FINDING: reload into / out of the deprecated modes is ignored
@@ -1366,6 +1379,19 @@ func TestVerifC13(t *testing.T) {
 		term, ok := c.coqTerm()
 		if !ok {
 			t.Fatalf("case %d: unknown op", c.Id)
+		}
+		// assumption of C13_etcd_owner_trace about net/url, checked on every URL written to etcd
+		for i := range c.Ops {
+			if o := &c.Ops[i]; o.K == "put" {
+				data, _ := o.payload()
+				var info BackendInformationEtcd
+				if json.Unmarshal(data, &info) == nil && info.Url != "" {
+					sink.count("oracle_regular_checked")
+					if msg := c13OracleRegular(info.Url); msg != "" {
+						t.Fatalf("case %d: net/url does not meet the oracle assumption of the etcd theorem (oracle_regular): %s", c.Id, msg)
+					}
+				}
+			}
 		}
 		for i := range c.Outs {
 			c.Ops[i].Out = c.Outs[i]
